@@ -24,6 +24,7 @@ class Unit:
         self.safety_prop = None
         self.proves = []
         self.assumes = []
+        self.verus_args = []
 
 
 def parse_bt(s):
@@ -122,6 +123,10 @@ def build_unit(name):
             inc = open(os.path.join(OVERLAY_DIR, arg)).read().split("\n")
             raw[i:i + 1] = inc
             continue
+        if d == "verus_args":
+            u.verus_args += arg.split()
+            i += 1
+            continue
         if d == "props":
             u.default_props = arg.split()
             i += 1
@@ -193,6 +198,8 @@ def build_unit(name):
                     spec["contract"] = shared[a2]
                     spec["contract_file"] = "shared_contracts.vrs"
                     spec["contract_name"] = a2
+                elif d2 == "attr":
+                    spec.setdefault("attrs", []).append(a2)
                 elif d2 == "lift":
                     spec["lift"] = a2
                 elif d2 == "body_ret":
@@ -304,7 +311,8 @@ def run_unit(name, prop):
     gpath = os.path.join(gdir, name + ".rs")
     text = "\n".join(l for l, _ in u.lines) + "\n"
     open(gpath, "w").write(text)
-    cmd = ["verus", gpath, "--output-json", "--time", "--multiple-errors", "50", "--error-format=json", "--rlimit", "60"]
+    cmd = ["verus", gpath, "--output-json", "--time", "--multiple-errors", "50", "--error-format=json", "--rlimit", "60"] + u.verus_args
+    res["cmd"] += " " + " ".join(u.verus_args)
     import subprocess
     try:
         p = subprocess.run(cmd, stdout=subprocess.PIPE, stderr=subprocess.PIPE, text=True, timeout=900, cwd=gdir, env=vlib.ENV)
